@@ -464,6 +464,86 @@ pub fn sweep(thorough: bool, panic_only: bool) -> (u64, Vec<(String, String)>) {
             if bad.len() < 12 { bad.push(b); }
         }
     }
+    // three and four commodities with explicit amounts only: the residual is an implied exchange only if EXACTLY two commodities
+    // remain (opposite signs); which names the commodities have, and in which order a hash map lists them, plays no part
+    let names = ["AAA", "BBB", "CCC", "DDD"];
+    let vals = [d("10"), d("-5"), d("7"), d("-7"), d("0")];
+    for v1 in &vals {
+        for v2 in &vals {
+            for v3 in &vals {
+                for v4 in [None, Some(d("-1")), Some(d("3"))] {
+                    for perm in 0..2 {
+                        let order: [usize; 4] = if perm == 0 { [0, 1, 2, 3] } else { [2, 3, 0, 1] };
+                        let mut t: Txn = vec![
+                            Post { account: "A", amount: Some((*v1, names[order[0]])), cost: None, lot: None, assertion: None },
+                            Post { account: "B", amount: Some((*v2, names[order[1]])), cost: None, lot: None, assertion: None },
+                            Post { account: "C", amount: Some((*v3, names[order[2]])), cost: None, lot: None, assertion: None },
+                        ];
+                        if let Some(v4) = v4 {
+                            t.push(Post { account: "D", amount: Some((v4, names[order[3]])), cost: None, lot: None, assertion: None });
+                        }
+                        for _ in 0..2 {
+                            evaluated += 1;
+                            if let Some(b) = check(&[t.clone()], &[]).filter(|b| !panic_only || b.1.contains("panicked")) {
+                                if bad.len() < 12 { bad.push(b); }
+                                break;
+                            }
+                        }
+                    }
+                }
+            }
+        }
+    }
+    // a cost posting whose converted value leaves three / four commodities behind, with a declared precision
+    for (a, b) in [(d("-2"), d("100")), (d("2"), d("-100")), (d("-2"), d("0"))] {
+        let t: Txn = vec![
+            Post { account: "A", amount: Some((d("3"), "ACME")), cost: Some((false, d("10.005"), "CHF")), lot: None, assertion: None },
+            Post { account: "B", amount: Some((d("-20"), "CHF")), cost: None, lot: None, assertion: None },
+            Post { account: "C", amount: Some((a, "EUR")), cost: None, lot: None, assertion: None },
+            Post { account: "D", amount: Some((b, "JPY")), cost: None, lot: None, assertion: None },
+            Post { account: "E", amount: Some((d("-1"), "USD")), cost: None, lot: None, assertion: None },
+        ];
+        evaluated += 1;
+        if let Some(b) = check(&[t], &["CHF"]).filter(|b| !panic_only || b.1.contains("panicked")) {
+            if bad.len() < 12 { bad.push(b); }
+        }
+    }
+    // accounts reached through aliases: a ledger that spells an account by an alias declared in an `account` directive - wherever
+    // the alias line stands among the directive's notes and comments - must behave exactly as the ledger that spells the
+    // canonical name (same verdict, same final balances); assertions through the alias see the canonical account's balance
+    let directives = [
+        "account Assets:Bank\n    alias Bank\n\n",
+        "account Assets:Bank\n    note main checking account\n    alias Bank\n\n",
+        "account Assets:Bank\n    ; a comment\n    alias Bank\n\n",
+        "account Assets:Bank\n    alias Old\n    note n\n    ; c\n    alias Bank\n    note m\n\n",
+        "account Assets:Bank\n    note n\n    alias Old\n    alias Bank\n\n",
+        "account Assets:Other\n    alias Bank2\n\naccount Assets:Bank\n    note n\n    alias Bank\n\n",
+    ];
+    let bodies = [
+        "2024/01/01 open\n    Assets:Bank    100 USD\n    Equity\n\n2024/01/02 dep\n    {A}    50 USD = 150 USD\n    Income\n\n",
+        "2024/01/01 open\n    Assets:Bank    100 USD\n    Equity\n\n2024/01/02 dep\n    {A}    50 USD = 50 USD\n    Income\n\n",
+        "2024/01/01 open\n    {A}    100 USD\n    Equity\n\n2024/01/02 set\n    Assets:Bank    = 30 USD\n    Income\n\n2024/01/03 chk\n    {A}    0 USD = 30 USD\n    Equity\n\n",
+        "2024/01/01 open\n    {A}    100 USD\n    {A}    5 EUR\n    Equity\n\n2024/01/02 zero\n    {A}    = 0\n    Income\n\n",
+        "2024/01/01 twice\n    {A}    10 USD = 10 USD\n    Assets:Bank    5 USD = 15 USD\n    {A}    -15 USD = 0\n\n",
+    ];
+    for dir in directives {
+        for body in bodies {
+            evaluated += 1;
+            let aliased = format!("{}{}", dir, body.replace("{A}", "Bank"));
+            let canonical = body.replace("{A}", "Assets:Bank");
+            let (ra, rc) = (run_real(&aliased), run_real(&canonical));
+            let verdict = match (&ra, &rc) {
+                (Real::Panic, _) | (_, Real::Panic) => Some("the run panicked".to_owned()),
+                (Real::Ok(x), Real::Ok(y)) => if x == y { None } else { Some(format!("through the alias the final balances are {:?}, with the canonical name {:?}", x, y)) },
+                (Real::Err(_), Real::Err(_)) => None,
+                (Real::Ok(x), Real::Err(e)) => Some(format!("accepted through the alias (balances {:?}) but rejected with the canonical name: {}", x, e.lines().next().unwrap_or(""))),
+                (Real::Err(e), Real::Ok(_)) => Some(format!("rejected through the alias but accepted with the canonical name: {}", e.lines().next().unwrap_or(""))),
+            };
+            if let Some(v) = verdict.filter(|v| !panic_only || v.contains("panicked")) {
+                if bad.len() < 12 { bad.push((aliased, v)); }
+            }
+        }
+    }
     (evaluated, bad)
 }
 
